@@ -70,6 +70,7 @@ type BoolLit struct{ V bool }
 type StrLit struct {
 	V   string
 	Raw bool // render with backquotes
+	Esc int  // interpreted literal only: 1 = bytes >= 0x80 as \xNN, 2 = as \NNN (octal), 3 = every byte as \xNN
 }
 type NilLit struct{}
 type VarRef struct{ Name string }
